@@ -608,6 +608,13 @@ class C04(Check):
             ones_p = tuple(i for i in chk if not wire[i])
             pats = pats + [("burst", pp) for pp in (zero_p, ones_p) if pp]
             res.fault("check_field_sentinel_pattern", bool(zero_p) + bool(ones_p))
+            # the data-type CRC masks of the standard (B.3.12) and their pairwise differences, applied to the check field: what a receiver sees when a
+            # sender used another PDU's mask or none at all -- a parser that "tolerates" that accepts a corrupted check field
+            if poly is not None and len(chk) == width and width in (16, 9):
+                ms = [0x6969, 0xA5A5, 0xAAAA, 0xCCCC, 0x3333] if width == 16 else [0x0F0, 0x1FF, 0x10F]
+                vals = sorted(set(ms) | {a ^ b for a in ms for b in ms if a != b})
+                pats = pats + [("burst", tuple(chk[j] for j in range(width) if (m >> (width - 1 - j)) & 1)) for m in vals]
+                res.fault("check_field_mask_confusion_pattern", len(vals))
         dropped = 0
         for pn, (cls, p) in enumerate(pats):
             if co and pn == len(pats) // 2:
